@@ -34,7 +34,12 @@ C.unit('C05', '_util:ArrayIndexer.__call__')
 
 # ----------------------------------------------------------------------------------------- _check_preprocessor
 def cp_cases():
+  # `-used` cases: the estimator has been used before (C05 / C17: what it resolves indicators against must be ITS CURRENT preprocessor
+  # parameter, whatever an earlier fit left in preprocessor_ -- set_params(preprocessor=...) between two uses is ordinary scikit-learn usage)
+  earlier = {'indexer': lambda: Obj('ArrayIndexer', {'X': Arr(2, owner=frozenset({('attr', 'X')}))}, closed=True), 'other': lambda: AnyRef()}
   return [Case(k, {'self': Obj('Covariance', {'preprocessor': prep_param(k)}, closed=True)}) for k in ('none', 'callable', 'arraylike')] + \
+         [Case('%s-used-%s' % (k, e), {'self': Obj('Covariance', {'preprocessor': prep_param(k), 'preprocessor_': mk()}, closed=True)})
+          for k in ('none', 'callable', 'arraylike') for e, mk in earlier.items()] + \
          [Case('invalid', {'self': Obj('Covariance', {'preprocessor': AnyRef(types={'other'}, not_in=[None])}, closed=True)}, never_returns=True)]
 
 
@@ -54,8 +59,8 @@ def cp_ensures(a, r):
   if kind == 'callable':
     return (cur.t == a.self.preprocessor) if isinstance(cur, VRef) else z3.BoolVal(False)
   if kind == 'arraylike':
-    # an ArrayIndexer wrapping the array-like
-    return z3.BoolVal(isinstance(cur, VObj) and cur.cls == 'ArrayIndexer')
+    # an ArrayIndexer wrapping the array-like -- built by THIS call from the current parameter (not an indexer left by an earlier use)
+    return z3.BoolVal(isinstance(cur, VObj) and cur.cls == 'ArrayIndexer' and (a.old is None or cur.oid not in a.old))
   return None
 
 
